@@ -7,6 +7,7 @@ mod api;
 mod common;
 mod engine;
 mod fg;
+mod mutate;
 mod props;
 mod refbp;
 
